@@ -43,3 +43,71 @@ Proof.
   cbn. intros H. inversion H as [|x l H1 H2]; subst. inversion H2 as [|y l' H3 H4]; subst. apply H3. left. reflexivity.
 Qed.
 Print Assumptions C03_distinct_names_refuted.
+
+(* F3c: an aggregator that declares the same replicated reference twice (here in both spellings).  The translation
+   map of compile_component_aggregate collects the copies once per declaration, so each declaration is replaced
+   by the list of copies twice over: 8 references instead of 4.  agg_guard holds, the "pairwise different
+   spellings" part of agg_sep does not: that hypothesis of C03_textual_refines_aggregate is necessary. *)
+Definition f3c_wf : twf := {| w_gvars := []; w_svars := []; w_comps := [
+  {| t_stage := 0; t_name := "A"; t_refs := []; t_args := "hi"; t_rep := RLit 2; t_agg := false; t_vars := [] |};
+  {| t_stage := 0; t_name := "C"; t_refs := ["A:ref"; "stage0.A:ref"]; t_args := ""; t_rep := RNone;
+     t_agg := true; t_vars := [] |} ]%string |}.
+
+Theorem C03_aggregate_duplicate_refuted :
+  exists scs info,
+    parse_comps f3c_wf (w_comps f3c_wf) = Some scs /\ propagate scs = Some info /\
+    option_map (map (fun o => (o_name o, o_refs o))) (expand_t f3c_wf) =
+      Some [("A0", []); ("A1", []);
+            ("C", ["stage0.A0:ref"; "stage0.A1:ref"; "stage0.A0:ref"; "stage0.A1:ref";
+                   "stage0.A0:ref"; "stage0.A1:ref"; "stage0.A0:ref"; "stage0.A1:ref"])]%string /\
+    option_map (map (fun o => (so_name o, map spell (so_refs o)))) (expand scs) =
+      Some [("A0", []); ("A1", []);
+            ("C", ["stage0.A0:ref"; "stage0.A1:ref"; "stage0.A0:ref"; "stage0.A1:ref"])]%string /\
+    forallb (fun sc => agg_guard info (s_refs sc)) scs = true /\
+    forallb (fun sc => nodup_str (rr_keys (repl_refs info (s_refs sc)))) scs = false.
+Proof. eexists. eexists. repeat split; vm_compute; reflexivity. Qed.
+Print Assumptions C03_aggregate_duplicate_refuted.
+
+(* F3 (regular expression): the reference is interpolated unescaped, so the dots of "stage0.A.B:ref" match any
+   character: the reference to the component AxB, followed by a path, is taken for a reference to A.B and
+   replaced by its copies.  agg_guard (plain substring tests) holds, the regular-expression part of agg_sep does
+   not: that hypothesis is necessary. *)
+Definition f3re_wf : twf := {| w_gvars := []; w_svars := []; w_comps := [
+  {| t_stage := 0; t_name := "A.B"; t_refs := []; t_args := "hi"; t_rep := RLit 2; t_agg := false; t_vars := [] |};
+  {| t_stage := 0; t_name := "AxB"; t_refs := []; t_args := "hi"; t_rep := RNone; t_agg := false; t_vars := [] |};
+  {| t_stage := 0; t_name := "C"; t_refs := ["stage0.A.B:ref"; "stage0.AxB:ref/d"]; t_args := ""; t_rep := RNone;
+     t_agg := true; t_vars := [] |} ]%string |}.
+
+Theorem C03_aggregate_regex_refuted :
+  exists scs info,
+    parse_comps f3re_wf (w_comps f3re_wf) = Some scs /\ propagate scs = Some info /\
+    option_map (map (fun o => (o_name o, o_refs o))) (expand_t f3re_wf) =
+      Some [("A.B0", []); ("A.B1", []); ("AxB", []);
+            ("C", ["stage0.A.B0:ref"; "stage0.A.B1:ref"; "stage0.A.B0:ref/d"; "stage0.A.B1:ref/d"])]%string /\
+    option_map (map (fun o => (so_name o, map spell (so_refs o)))) (expand scs) =
+      Some [("A.B0", []); ("A.B1", []); ("AxB", []);
+            ("C", ["stage0.A.B0:ref"; "stage0.A.B1:ref"; "stage0.AxB:ref/d"])]%string /\
+    forallb (fun sc => agg_guard info (s_refs sc)) scs = true /\
+    forallb (fun sc => agg_sep info (s_refs sc)) scs = false.
+Proof. eexists. eexists. repeat split; vm_compute; reflexivity. Qed.
+Print Assumptions C03_aggregate_regex_refuted.
+
+(* F3 (arguments): a token of command.arguments that merely contains a declared spelling is rewritten inside:
+   "xA:ref" becomes "xstage0.A0:ref".  no_overlap holds for the references, args_sep does not hold for the tokens:
+   that hypothesis of C03_textual_arguments_replica is necessary. *)
+Definition f3arg_wf : twf := {| w_gvars := []; w_svars := []; w_comps := [
+  {| t_stage := 0; t_name := "A"; t_refs := []; t_args := "hi"; t_rep := RLit 2; t_agg := false; t_vars := [] |};
+  {| t_stage := 0; t_name := "C"; t_refs := ["A:ref"]; t_args := "A:ref xA:ref"; t_rep := RNone;
+     t_agg := false; t_vars := [] |} ]%string |}.
+
+Theorem C03_arguments_sep_refuted :
+  exists scs info,
+    parse_comps f3arg_wf (w_comps f3arg_wf) = Some scs /\ propagate scs = Some info /\
+    option_map (map (fun o => (o_name o, o_args o))) (expand_t f3arg_wf) =
+      Some [("A0", "hi"); ("A1", "hi"); ("C0", "stage0.A0:ref xstage0.A0:ref"); ("C1", "stage0.A1:ref xstage0.A1:ref")]%string /\
+    forallb (fun sc => no_overlap info 0 (s_refs sc)) scs = true /\
+    forallb (fun sc => args_sep (sorted_translation (repl_refs info (s_refs sc)) 0) ["A:ref"; "xA:ref"]%string) scs = false /\
+    map (tok_spec (sorted_translation [(0%N, "A", None, "ref", 2%N)] 0))%string ["A:ref"; "xA:ref"]%string =
+      ["stage0.A0:ref"; "xA:ref"]%string.
+Proof. eexists. eexists. repeat split; vm_compute; reflexivity. Qed.
+Print Assumptions C03_arguments_sep_refuted.
